@@ -225,6 +225,16 @@ def mems_of(block):
     return out
 
 
+def default_memkey(block):
+    """the key a user passes in memory_value_map for a memory of this block: for a PostSynthBlock the
+    ORIGINAL MemBlock (Simulation translates through block.mem_map), otherwise the MemBlock itself"""
+    from pyrtl.core import PostSynthBlock
+    if isinstance(block, PostSynthBlock):
+        inv = {id(v): k for k, v in block.mem_map.items()}
+        return lambda m: inv.get(id(m), m)
+    return lambda m: m
+
+
 class SimResult(object):
     __slots__ = ('pc', 'trace', 'mems', 'exc', 'extra', 'regs_next')
 
@@ -252,7 +262,7 @@ def run_sim(block, K, vars_, kind='sim', reg_init='sym', mem_init='sym', default
     else:
         tracked = list(track)
     regmap_key = regmap_key or (lambda r: r)
-    memmap_key = memmap_key or (lambda m: m)
+    memmap_key = memmap_key or default_memkey(block)
 
     def body():
         rmap = {}
